@@ -418,6 +418,8 @@ pub fn to_json(t: &Runtype) -> J {
         RuntypeKind::BigInt => json!("bigint"),
         RuntypeKind::Date => json!("date"),
         RuntypeKind::TypedArray(k) => json!({"typed": crate::refmodel::typed_index(k)}),
+        RuntypeKind::Map(k, v) => json!({"map": [to_json(k), to_json(v)]}),
+        RuntypeKind::Set(v) => json!({"set": to_json(v)}),
         RuntypeKind::Const(RuntypeConst::Bool(b)) => json!({"bool": b}),
         RuntypeKind::Const(RuntypeConst::Number(n)) => json!({"num": n.to_f64()}),
         RuntypeKind::TplLitType(tpl) => match crate::refmodel::single_const(tpl) {
@@ -489,6 +491,12 @@ pub fn from_json(j: &J) -> Runtype {
     }
     if let Some(k) = o.get("typed") {
         return Runtype::typed_array(crate::refmodel::TYPED_KINDS[k.as_u64().unwrap() as usize]);
+    }
+    if let Some(m) = o.get("map") {
+        return Runtype::new(RuntypeKind::Map(Box::new(from_json(&m[0])), Box::new(from_json(&m[1]))));
+    }
+    if let Some(v) = o.get("set") {
+        return Runtype::new(RuntypeKind::Set(Box::new(from_json(v))));
     }
     if let Some(n) = o.get("num") {
         return lit_n(n.as_f64().unwrap() as i64);
